@@ -459,7 +459,7 @@ static_assert(!std::is_base_of<std::forward_iterator_tag, std::iterator_traits<I
 // n items and capacity cap, in a forked child; reported: ok [g=<allocated?>] | abort | exception  (+ TOUCHED if a rejected
 // call changed the element sequence).   line: gd <fn> <n> <cap> <index> <count>
 #if ELEM == 0
-template<class A, bool showG, class F> static void guardChild(size_t n, size_t cap, F call)
+template<class A, bool showG, class F, bool showSeq = false> static void guardChild(size_t n, size_t cap, F call)
 {
 	std::fflush(stdout);
 	int fds[2]; if (pipe(fds) != 0) { std::puts("pipe-failed"); return; }
@@ -479,7 +479,7 @@ template<class A, bool showG, class F> static void guardChild(size_t n, size_t c
 		size_t allocs0 = gAllocs;
 		std::string st;
 		alarm(20);      // a runaway call (e.g. a huge Reserve) must not hang the check
-		try { call(r->c); st = showG ? "ok g=" + std::to_string(int(gAllocs != allocs0)) + "\n" : std::string("ok\n"); }
+		try { call(r->c); st = showSeq ? "ok " + r->seq() + "\n" : showG ? "ok g=" + std::to_string(int(gAllocs != allocs0)) + "\n" : std::string("ok\n"); }
 		catch (const std::exception&) { st = std::string("exception ") + (r->seq() == pre ? "" : "TOUCHED") + "\n"; }
 		ssize_t wr = write(gPipeFd, st.data(), st.size()); (void)wr;
 		_exit(0);
@@ -491,6 +491,18 @@ template<class A, bool showG, class F> static void guardChild(size_t n, size_t c
 	int status = 0; waitpid(pid, &status, 0);
 	while (!got.empty() && (got.back() == '\n' || got.back() == ' ')) got.pop_back();
 	std::puts(got.c_str());
+}
+// translator validation of the GENERATED loops (Gen_ShiftLoops.v): the real ArrayShifter::Remove / InsertNogrow on an array with n items
+// 10..10+n-1 and capacity cap; item = element itemidx (aliased) if itemidx < n, else an external object of value 5.  line: gl <fn> n cap index count itemidx
+static void runLoops(const std::string& line)
+{
+	std::istringstream is(line); std::string g, fn; unsigned long long n, cap, index, count, itemidx; is >> g >> fn >> n >> cap >> index >> count >> itemidx;
+	typedef Array<Elem, CountMM, ArrayItemTraits<Elem, CountMM>, ArraySettings<0, false>> A;
+	size_t i = size_t(index), c = size_t(count), ii = size_t(itemidx);
+	if (fn == "remove") guardChild<A, false, std::function<void(A&)>, true>(n, cap, [=] (A& a) { internal::ArrayShifter<A>::Remove(a, i, c); });
+	else if (fn == "insert") guardChild<A, false, std::function<void(A&)>, true>(n, cap, [=] (A& a) {
+		Elem ext = mk(5); const Elem& item = (ii < a.GetCount()) ? a[ii] : ext; internal::ArrayShifter<A>::InsertNogrow(a, i, c, item); });
+	else std::puts("unsupported-loop");
 }
 static void runGuard(const std::string& line)
 {
@@ -504,6 +516,14 @@ static void runGuard(const std::string& line)
 	else if (fn == "rb") guardChild<A, true>(n, cap, [=] (A& a) { a.RemoveBack(c); });
 	else if (fn == "abn") guardChild<A, true>(n, cap, [=] (A& a) { Elem e = mk(5); a.AddBackNogrow(e); });
 	else if (fn == "idx") guardChild<A, true>(n, cap, [=] (A& a) { (void)a[i]; });
+	else if (fn == "indexof")
+	{	// the real (private) Array::pvIndexOf on a reference to element i (i < n), to the one-past-the-end slot (i == n) or to an external object
+		A a; if (cap > 0) a.Reserve(cap); for (size_t k = 0; k < n; ++k) { Elem e = mk(ll(10 + k)); a.AddBack(e); }
+		Elem ext = mk(5);
+		const Elem& ref = (i < n) ? a[i] : (i == n && a.GetItems() != nullptr) ? *(a.GetItems() + n) : ext;
+		size_t r = a.pvIndexOf(ref);
+		std::puts(r == SIZE_MAX ? "max" : std::to_string(r).c_str());
+	}
 	else if (fn == "seginsert") guardChild<S, false>(n, 0, [=] (S& a) { Elem e = mk(5); a.Insert(i, c, e); });
 	else if (fn == "segrb") guardChild<S, false>(n, 0, [=] (S& a) { a.RemoveBack(c); });
 	else std::puts("unsupported-guard");
@@ -528,6 +548,7 @@ int main()
 		}
 #if ELEM == 0
 		if (cont == "gd") { runGuard(line); continue; }
+		if (cont == "gl") { runLoops(line); continue; }
 #endif
 		if (cont == "grow")
 		{	// translator validation: the real ArraySettings::GrowCapacity.  line: grow <growOnReserve> <capacity> <minNew> <cause> <linear>
